@@ -11,7 +11,7 @@ def jNextIdx (A B : Log) : List Hash := (jNew A B).foldl (fun idx e => e.next.fo
 def jNextsFromNew (A B : Log) : List Hash := (jNew A B).foldl (fun acc e => acc ++ e.next) []
 def jHeads (A B : Log) : List Entry :=
   omFromList ((findHeads (omMerge A.heads B.heads)).filter
-    (fun e => !(jNextsFromNew A B).contains e.hash && !(jNextIdx A B).contains e.hash))
+    (fun e => !(jNextsFromNew A B).contains e.hash && !(jNextIdx A B).contains e.hash && has (jEntries A B) e.hash))
 
 /-- the state after `A.Join(B, -1)` when both carry the same id and every candidate is admitted -/
 def joinU (A B : Log) : Log := joinClock (joinMerge A B.entries B.heads)
@@ -215,20 +215,20 @@ theorem mem_jHeads (hU : (hashes U).Nodup) (IA : Inv U A) (IB : Inv U B) (hid : 
     x ∈ jHeads A B ↔ (x ∈ A.heads ∨ x ∈ B.heads) ∧ ¬ namedBy (jEntries A B) x.hash := by
   unfold jHeads
   have hfn : (hashes ((findHeads (omMerge A.heads B.heads)).filter
-      (fun e => !(jNextsFromNew A B).contains e.hash && !(jNextIdx A B).contains e.hash))).Nodup := by
+      (fun e => !(jNextsFromNew A B).contains e.hash && !(jNextIdx A B).contains e.hash && has (jEntries A B) e.hash))).Nodup := by
     have := findHeads_nodup (omMerge_nodup A.heads B.heads)
     unfold hashes at *
     exact (List.Sublist.map _ List.filter_sublist).nodup this
   rw [omFromList_eq_self hfn, List.mem_filter, mem_findHeads, mem_omMerge_iff hU IA IB]
   simp only [Bool.and_eq_true, Bool.not_eq_true']
   constructor
-  · rintro ⟨⟨hx, _⟩, _, h2⟩
+  · rintro ⟨⟨hx, _⟩, ⟨_, h2⟩, _⟩
     refine ⟨hx, ?_⟩
     intro hn
     have := (mem_jNextIdx hU IA IB hid).mpr hn
     rw [List.contains_iff_mem.mpr this] at h2; cases h2
   · rintro ⟨hx, hn⟩
-    refine ⟨⟨hx, ?_⟩, ?_, ?_⟩
+    refine ⟨⟨hx, ?_⟩, ⟨?_, ?_⟩, ?_⟩
     · intro hm
       exact hn (namedBy_mono (fun e he => omMerge_sub_jEntries hU IA IB hid he) hm)
     · rw [Bool.eq_false_iff]
@@ -240,6 +240,7 @@ theorem mem_jHeads (hU : (hashes U).Nodup) (IA : Inv U A) (IB : Inv U B) (hid : 
     · rw [Bool.eq_false_iff]
       intro hc
       exact hn ((mem_jNextIdx hU IA IB hid).mp (List.contains_iff_mem.mp hc))
+    · exact has_of_mem (omMerge_sub_jEntries hU IA IB hid ((mem_omMerge_iff hU IA IB).mpr hx))
 
 theorem jHeads_nodup : (hashes (jHeads A B)).Nodup := by
   unfold jHeads; exact omFromList_nodup _
